@@ -10,6 +10,7 @@ from ...interpreterbase import (
     MesonInterpreterObject,
     MesonOperator,
     InvalidArguments,
+    typed_operator,
 )
 
 if T.TYPE_CHECKING:
@@ -20,6 +21,7 @@ class RangeHolder(MesonInterpreterObject, IterableObject):
         super().__init__(subproject=subproject)
         self.range = range(start, stop, step)
 
+    @typed_operator(MesonOperator.INDEX, int)
     @InterpreterObject.operator(MesonOperator.INDEX)
     def op_index(self, other: int) -> int:
         try:
